@@ -195,7 +195,7 @@ def matchInnersToPolygons (polys0 : Array (Array (Array P))) (inners : Array (Ar
 
 /-! ### SnapPolygon -/
 
-structure Config where (keep reverse : Bool) deriving Repr
+structure Config where (keep reverse : Bool) (ignoreOutside : Bool := false) deriving Repr
 
 /-- exact orientation of an input ring (coordinates translated to the first vertex, as `winding.Orientation` does) -/
 def ensureCorrectWindingOrder (ring : Array Pt) (shouldBeCW : Bool) : Array Pt :=
@@ -217,6 +217,36 @@ structure LevelState where
 
 instance : Inhabited LevelState := ⟨{ level := 0 }⟩
 
+/-- the routed boundary (C02): per requested level and per ring the joined chain of routed edges
+    (orientation normalised, `cleanupNewVertices` applied, closing vertex dropped as `cleanupNewRing` does) -/
+def routedChains (g : Grid) (rings : Array (Array Pt)) (levels : List Nat) : Except String (List (Nat × Array (Array P))) := do
+  let mut addrs : List Quad := []
+  for r in rings do
+    for v in r do
+      match deepestAddr g v with
+      | none => throw "outside-grid"
+      | some a => addrs := a :: addrs
+  let hot := hotOf g addrs
+  let mut out : List (Nat × Array (Array P)) := []
+  for l in levels do
+    let mut chains : Array (Array P) := #[]
+    for ringIdx in [0 : rings.size] do
+      let ring := ensureCorrectWindingOrder rings[ringIdx]! (ringIdx != 0)
+      let n := ring.size
+      let mut cur : Array P := #[]
+      for vi in [0 : n] do
+        let seg : Seg := ⟨ring[vi]!, ring[(vi + 1) % n]!⟩
+        let quads : Array P := (snapLevel lineIntersects g hot seg l).toArray.map fun q => ((q.x : Int), (q.y : Int))
+        if quads.size == 0 then throw "no points found"
+        let minus := min (quads.size - 1) 1
+        let mut nv := quads.extract 0 (quads.size - minus)
+        if cur.size > 0 && nv[0]! == cur[cur.size - 1]! then nv := nv.extract 1 nv.size
+        cur := cur ++ nv
+      if cur.size > 1 && cur[0]! == cur[cur.size - 1]! then cur := cur.extract 0 (cur.size - 1)
+      chains := chains.push cur
+    out := out ++ [(l, chains)]
+  return out
+
 def snapPolygon (g : Grid) (rings : Array (Array Pt)) (levels : List Nat) (cfg : Config) :
     Except String (List (Nat × Array (Array (Array P)))) := do
   -- InsertPolygon
@@ -224,7 +254,7 @@ def snapPolygon (g : Grid) (rings : Array (Array Pt)) (levels : List Nat) (cfg :
   for r in rings do
     for v in r do
       match deepestAddr g v with
-      | none => throw "outside-grid"
+      | none => if cfg.ignoreOutside then return [] else throw "outside-grid"
       | some a => addrs := a :: addrs
   let hot := hotOf g addrs
   let mut st : Array LevelState := (levels.map fun l => ({ level := l } : LevelState)).toArray
